@@ -315,7 +315,17 @@ for nf in ([1, 2, 3] if Q else [1, 2, 3, 4, 5]):
             fn = os.path.join(chk.work, "scat_roundtrip.mat")
             fsave = {"row": freqs.reshape(1, -1), "col": freqs.reshape(-1, 1), "flat": freqs}[shape]
             sio.savemat(fn, dict({f"scattering_{k}": sub[k] for k in keys}, frequencies=fsave))
-            loaded = arim.io.load_scat(fn)
+            # (the library-wide precision settings may be at non-default values while a double-precision file is loaded: a file
+            #  is loaded with the values it stores)
+            import arim.settings as _st
+            _keep = (_st.FLOAT, _st.COMPLEX)
+            if shape == "col":
+                _st.FLOAT, _st.COMPLEX = np.float32, np.complex64
+                chk.count(matfile_loaded_with_settings="FLOAT=float32 COMPLEX=complex64")
+            try:
+                loaded = arim.io.load_scat(fn)
+            finally:
+                _st.FLOAT, _st.COMPLEX = _keep
             ok = (np.array_equal(loaded.frequencies, freqs) and set(loaded.orig_matrices) == set(keys)
                   and all(np.array_equal(loaded.orig_matrices[k], sub[k]) for k in keys))
             evaluations += 1
